@@ -264,4 +264,4 @@ def fragmentation_rule(ctx, rep, R):
                 bad.append((sw, f"{e[1] if e[0] == 'bin' else e[0]} on the count of a single read()"))
             rep.check(R, f"{fn_key(b)}/finished/{k}", not bad, where=where(b, bi), what=f"{fn_key(b)}: `finished` is set only on 0 bytes read / a short read_to_end" if not bad else
                       f"{fn_key(b)}: the iterator is marked finished because ONE read() returned a short count ({bad[0][1]} at {where(b, bad[0][0])}): a slow pipe ends the stream early and moves chunk boundaries")
-    rep.floor(R, "`finished = true` sites in the chunkers", n, 3)
+    rep.floor(R, "`finished = true` sites in the chunkers", n, 2)
